@@ -9,7 +9,7 @@ Import ListNotations.
 Theorem C17_text_node :
   forall old new e eks c tx wuri nodes,
   str_eqb (e_local e) s_br = false -> e_text e = Some (c :: tx) ->
-  contains old (c :: tx) = true -> e_wuri e = Some wuri ->
+  contains old (c :: tx) = true -> is_text_like e = true -> e_wuri e = Some wuri ->
   no_cr (replace old new (c :: tx)) ->
   replace_node old new (AE e eks) = Ok nodes ->
   concat (map node_text nodes) = replace old new (c :: tx).
@@ -20,7 +20,7 @@ Print Assumptions C17_text_node.
 Theorem C17_text_node_general :
   forall old new e eks c tx wuri nodes,
   str_eqb (e_local e) s_br = false -> e_text e = Some (c :: tx) ->
-  contains old (c :: tx) = true -> e_wuri e = Some wuri ->
+  contains old (c :: tx) = true -> is_text_like e = true -> e_wuri e = Some wuri ->
   replace_node old new (AE e eks) = Ok nodes ->
   concat (map node_text nodes) = join [lf] (split_nl (replace old new (c :: tx))).
 Proof. exact replace_text_general. Qed.
@@ -41,7 +41,8 @@ Print Assumptions C17_carriage_returns_become_line_breaks.
 (* what a hit produces: one copy of the node per line, a w:br between *)
 Theorem C17_nodes_produced :
   forall old new e eks c tx wuri,
-  e_text e = Some (c :: tx) -> contains old (c :: tx) = true -> e_wuri e = Some wuri ->
+  e_text e = Some (c :: tx) -> contains old (c :: tx) = true -> is_text_like e = true ->
+  e_wuri e = Some wuri ->
   replace_node old new (AE e eks) =
     Ok (interleave (br_of e wuri)
           (map (fun l => AE (with_text e l) eks) (split_nl (replace old new (c :: tx))))).
@@ -156,3 +157,25 @@ Theorem C17_source_elem_key :
   S__elem_key ext (enc_file v fmt) (enc_el (AE e ks)) = lift_key (elem_key v e ks).
 Proof. exact src_elem_key. Qed.
 Print Assumptions C17_source_elem_key.
+
+(* after the D33 repair: text the extraction does not show (deleted text, field codes - any element that is not w:t / m:t) is never replaced, only its children are visited *)
+Theorem C17_invisible_text_untouched :
+  forall old new e eks,
+  is_text_like e = false ->
+  replace_node old new (AE e eks) = (eks' <- replace_kids old new eks ;; Ok [AE e eks']).
+Proof. exact replace_node_skips_invisible. Qed.
+Print Assumptions C17_invisible_text_untouched.
+
+(* a childless element that is not w:t / m:t is left exactly as it is, whatever its text *)
+Theorem C17_invisible_leaf_untouched :
+  forall old new e,
+  is_text_like e = false -> replace_node old new (AE e []) = Ok [AE e []].
+Proof. exact replace_node_leaf_invisible. Qed.
+Print Assumptions C17_invisible_leaf_untouched.
+
+(* the frame extends to needles that occur only in invisible text: such a tree is unchanged *)
+Theorem C17_frame_visible :
+  forall old new k,
+  needle_free_visible old k = true -> replace_node old new k = Ok [k].
+Proof. exact replace_node_frame_visible. Qed.
+Print Assumptions C17_frame_visible.
